@@ -878,6 +878,10 @@ func (v Value) toReflectValue(typ reflect.Type) (reflect.Value, error) {
 		case valueEmpty, valueResult, valueReference:
 			// These are invalid, and should panic
 		default:
+			if v.value == nil {
+				// undefined / null: the zero value (nil for interfaces), not an invalid reflect.Value
+				return reflect.Zero(typ), nil
+			}
 			return reflect.ValueOf(v.value), nil
 		}
 	}
